@@ -25,7 +25,7 @@ PROP = "C14"
 KEYWORDISH = ["print", "lambda", "def", "from", "None", "pass", "async", "f", "serialize", "markdown", "svg", "clone"]
 # the plain C locale with Python's UTF-8 mode and locale coercion switched off: the preferred encoding is ASCII
 C_LOCALE = {"LC_ALL": "C", "LANG": "C", "PYTHONUTF8": "0", "PYTHONCOERCECLOCALE": "0"}
-STEMS = ["basis", "geometry", "nav", "linear", "sfm", "slam", "base", "inference", "symbolic", "discrete", "a", "zz9"]
+STEMS = ["omni", "wifi", "i", "basis", "geometry", "nav", "linear", "sfm", "slam", "base", "inference", "symbolic", "discrete", "a", "zz9"]
 THEOREM_MODULES = ["WrapModel.Props.C14"]
 
 
@@ -110,6 +110,45 @@ def history_case(idx, payload):
     return res
 
 
+def xml_history_case(idx, payload):
+    """Doxygen documentation with overloads that have identical parameter names (the per-key counter of the XML parser):
+    a NEW wrapper object for the same input and the same XML folder must produce the same output as the first one"""
+    from gtwrap.pybind_wrapper import PybindWrapper
+    seed, _ = payload
+    rng = random.Random(seed * 1000003 + idx + 515151)
+    n_doc = rng.randint(2, 4)
+    n_wrapped = rng.randint(1, n_doc)
+    types = ["int", "double", "size_t", "char"]
+    text = "class A { A(); %s };" % " ".join("void scale(%s s);" % types[i] for i in range(n_wrapped))
+    res = dict(idx=idx, text=text, bad=None, runs=0)
+    d = tempfile.mkdtemp(prefix="verif_c14x_")
+    try:
+        open(os.path.join(d, "index.xml"), "w").write(
+            '<doxygenindex><compound refid="classA" kind="class"><name>A</name></compound></doxygenindex>')
+        open(os.path.join(d, "classA.xml"), "w").write(
+            '<doxygen><compounddef id="classA" kind="class"><compoundname>A</compoundname><sectiondef kind="public-func">' + "".join(
+                '<memberdef kind="function" id="m%d"><type>void</type><name>scale</name><argsstring>(%s s)</argsstring>'
+                '<param><type>%s</type><declname>s</declname></param><briefdescription><para>Overload number %d.</para>'
+                '</briefdescription><detaileddescription></detaileddescription></memberdef>' % (i, types[i], types[i], i)
+                for i in range(n_doc)) + '</sectiondef></compounddef></doxygen>')
+        outs = []
+        for _ in range(3):
+            w = PybindWrapper(module_name="m", top_module_namespaces=[''], use_boost_serialization=False, ignore_classes=[],
+                              module_template=streams.TPL_MIN, xml_source=d)
+            try:
+                outs.append(("ok", w.wrap_file(text, module_name="m")))
+            except Exception as e:  # noqa
+                outs.append(("err", classify_exc(e)))
+        if outs[1] != outs[0] or outs[2] != outs[0]:
+            k = 1 if outs[1] != outs[0] else 2
+            dd = streams.first_diff(outs[0][1], outs[k][1]) if outs[0][0] == outs[k][0] == "ok" else dict(expected=str(outs[0])[:200], got=str(outs[k])[:200])
+            res["bad"] = dict(what="with Doxygen XML, a new wrapper object produces other output than the first one did for the same input",
+                              input=text, documented_overloads=n_doc, **dd)
+    finally:
+        shutil.rmtree(d, ignore_errors=True)
+    return res
+
+
 def run_script(args, cwd, env_extra):
     env = dict(os.environ, PYTHONPATH=REPO)
     env.update(env_extra)
@@ -178,6 +217,25 @@ def process_case(idx, payload):
             if any(not n.startswith(os.path.join(sub, "tb") + os.sep) for n in new):
                 res["bad"] = dict(what="MATLAB script wrote files outside the requested folder", input=text, written=sorted(new)[:10])
                 return res
+        # previous runs: the same target path again, other options, inputs untouched — the earlier output must not survive
+        cwd = os.path.join(base, "w1")
+        api2 = impl_pybind(text, streams.TPL_MIN, "mody", [''], False, [], stems)
+        r = run_script([os.path.join(REPO, "scripts", "pybind_wrap.py"), "--src", ";".join([src] + subs), "--module_name", "mody", "--out", "o.cpp",
+                        "--template", tpl], cwd, {})
+        res["runs"] += 1
+        got = open(os.path.join(cwd, "o.cpp"), encoding="utf-8").read() if os.path.exists(os.path.join(cwd, "o.cpp")) else None
+        if api2[0] == "ok" and (r.returncode != 0 or got != api2[1]):
+            res["bad"] = dict(what="pybind script output depends on an earlier run into the same build directory (other options, same inputs)",
+                              input=text, stderr=r.stderr[-300:], **(streams.first_diff(api2[1], got) if got else {}))
+            return res
+        apim2 = impl_matlab([text], "mody", [], False)
+        r = run_script([os.path.join(REPO, "scripts", "matlab_wrap.py"), "--src", src, "--module_name", "mody", "--out", "tb2"], cwd, {})
+        res["runs"] += 1
+        got = {k[len("w1/tb2/"):]: v.decode("utf-8") for k, v in listing(base).items() if k.startswith("w1/tb2/")}
+        if apim2[0] == "ok" and (r.returncode != 0 or got != apim2[1]):
+            res["bad"] = dict(what="MATLAB script output for a second module in the same build directory differs from the API's",
+                              input=text, stderr=r.stderr[-300:])
+            return res
     finally:
         shutil.rmtree(base, ignore_errors=True)
     return res
@@ -230,9 +288,72 @@ def replay_finding(e):
     return False
 
 
+def driver_case(idx, payload):
+    """the library API driven twice with ONE list of sources (wrap + wrap_submodule): same files both times, list untouched"""
+    import props.c16 as c16
+    r = c16.driver_case(idx, payload)
+    if r["bad"]:
+        r["bad"].pop("kind", None)
+    return r
+
+
+def shared_dir_case(idx, payload):
+    """two MATLAB targets that share a top-level C++ namespace (as gtsam and gtsam_unstable share +gtsam) generated into ONE
+    toolbox directory, in both orders: the directory is the union of what each target produces alone — a run writes its own
+    files and touches nothing else"""
+    seed, _ = payload
+    rng = random.Random(seed * 1000003 + idx + 171717)
+    texts = []
+    for k in range(2):
+        m, t = gen_text(rng, dict(max_depth=1, max_decls=3, class_pool=[["Pa", "Pb", "Pc"], ["Qa", "Qb", "Qc"]][k], mnames=["f%d" % k, "g%d" % k],
+                                  ns_pool=["gtsam"], allow_typedef=False, p_template=0.0, extra_kinds=['cls', 'cls'], allow_enum=False))
+        texts.append("namespace gtsam {\n%s\n}\n" % t.rstrip())
+    res = dict(idx=idx, text="\x1e".join(texts), bad=None, runs=0)
+    base = tempfile.mkdtemp(prefix="verif_c14s_")
+    try:
+        srcs = []
+        for k, t in enumerate(texts):
+            sp = os.path.join(base, "mod%d.i" % k)
+            open(sp, "w", encoding="utf-8").write(t)
+            srcs.append(sp)
+
+        def gen_into(out, k):
+            r = run_script([os.path.join(REPO, "scripts", "matlab_wrap.py"), "--src", srcs[k], "--module_name", "mod%d" % k, "--out", out],
+                           base, {})
+            res["runs"] += 1
+            return r.returncode
+
+        alone = []
+        for k in range(2):
+            if gen_into("alone%d" % k, k) != 0:
+                return res
+            alone.append({p[len("alone%d" % k) + 1:]: v for p, v in listing(base).items() if p.startswith("alone%d" % k + os.sep)})
+        if set(alone[0]) & set(alone[1]):
+            return res       # the two targets write a common path: not the situation of this case
+        want = dict(alone[0], **alone[1])
+        for order in ((0, 1), (1, 0)):
+            out = "shared%d%d" % order
+            for k in order:
+                if gen_into(out, k) != 0:
+                    res["bad"] = dict(what="a MATLAB target that generates alone fails in a directory that holds another target's files", input=texts[k])
+                    return res
+            got = {p[len(out) + 1:]: v for p, v in listing(base).items() if p.startswith(out + os.sep)}
+            if got != want:
+                res["bad"] = dict(what="two MATLAB targets generated into one toolbox directory (order %s): the directory is not the union of "
+                                       "their stand-alone outputs" % (order,), files=texts,
+                                  missing=sorted(set(want) - set(got))[:6], unexpected=sorted(set(got) - set(want))[:6],
+                                  changed=sorted(p for p in want if p in got and got[p] != want[p])[:6])
+                return res
+    finally:
+        shutil.rmtree(base, ignore_errors=True)
+    return res
+
+
 def run(ctx, n_reuse, n_proc, off=0, collect=True):
     first = None
-    for fn, n, tag in ((reuse_case, n_reuse, "reuse"), (process_case, n_proc, "process"), (history_case, n_proc * 2, "history")):
+    for fn, n, tag in ((reuse_case, n_reuse, "reuse"), (process_case, n_proc, "process"), (history_case, n_proc * 2, "history"),
+                       (xml_history_case, 12, "xml_history"), (driver_case, max(10, n_proc), "api_driver"),
+                       (shared_dir_case, max(6, n_proc // 2), "shared_dir")):
         for r in fw.run_cases(fn, [(ctx.seed + off, None)] * n):
             if "crash" in r:
                 raise RuntimeError(r["crash"])
